@@ -79,7 +79,7 @@ pub fn replay(input: &str, output: &str) {
             if stop_at == 0 { bad.push("path-returned-although-cancelled"); }
             // the flag went up while sample number stop_at was drawn: the iteration under way may still finish (and
             // connect the trees), but a planner that goes on drawing samples has looked past the raised flag
-            if stop_at > 0 && (*drawn.borrow() as i64) > stop_at && !*overrun.borrow() { bad.push("path-returned-although-cancelled-during-planning"); }
+            if stop_at > 0 && (*drawn.borrow() as i64) > stop_at { bad.push("path-returned-although-cancelled-during-planning"); }
             for b in bad {
                 out.put(json!({"sig": format!("rrt1d:{}:stop-{}", b, stop_class),
                     "detail": format!("real result {} (queries {}); {}", got_r, Value::Array(got_q.clone()), desc), "data": desc}));
@@ -100,7 +100,7 @@ pub fn record(output: &str) {
     quiet_panics();
     let mut out = Out::create(output);
     let mut r = rng(1313);
-    let n = if thorough() { 120 } else { 22 };
+    let n = if thorough() { 120 } else { 26 };
     let mut made = 0;
     let mut tries = 0;
     while made < n && tries < n * 20 {
@@ -151,19 +151,26 @@ pub fn record(output: &str) {
             }
             let Some(sg) = found else { continue; };
             sg
-        } else if tries % 4 == 1 {
-            // start and goal a few degrees inside the limits of most joints (and apart in joint 2)
+        } else if tries % 12 == 3 {
+            // start and goal 0.03 to 0.3 degrees (a small fraction of a planner step) inside the limits of most joints
             let near = |r: &mut rand::rngs::StdRng, upper: bool| -> Option<Joints> {
                 for _ in 0..60 {
                     let q: Joints = std::array::from_fn(|i| if i == 1 { r.gen_range(case.from[1] * 0.6..case.to[1] * 0.6) } else if r.gen_bool(0.8) {
-                        if upper { case.to[i] - r.gen_range(0.001..0.06) } else { case.from[i] + r.gen_range(0.001..0.06) } } else { r.gen_range(case.from[i] * 0.7..case.to[i] * 0.7) });
+                        if upper { case.to[i] - r.gen_range(0.0005..0.005) } else { case.from[i] + r.gen_range(0.0005..0.005) } } else { r.gen_range(case.from[i] * 0.7..case.to[i] * 0.7) });
                     if !kws.collides(&q) { return Some(q); }
                 }
                 None
             };
+            // (preferably a pair whose straight connection is blocked, so that the planner has to sample)
             let up = r.gen_bool(0.5);
-            let (Some(s), Some(g)) = (near(&mut r, up), near(&mut r, up)) else { continue; };
-            (s, g)
+            let mut found = None;
+            for attempt in 0..120 {
+                let (Some(s), Some(g)) = (near(&mut r, up), near(&mut r, up)) else { break; };
+                let through = (1..20).any(|i| { let f = i as f64 / 20.0; let m: Joints = std::array::from_fn(|j| s[j] + (g[j] - s[j]) * f); kws.collides(&m) });
+                if through || attempt == 119 { found = Some((s, g)); break; }
+            }
+            let Some(sg) = found else { continue; };
+            sg
         } else {
             let (Some(s), Some(g)) = (pick_free(&mut r), pick_free(&mut r)) else { continue; };
             (s, g)
@@ -172,7 +179,10 @@ pub fn record(output: &str) {
         let step_deg = [3.0, 6.0, 12.0][made % 3];
         let planner = RRTPlanner { step_size_joint_space: (step_deg as f64).to_radians(), max_try: [2000, 300, 40][made % 3], debug: false };
         let shared = Arc::new(AtomicBool::new(true));     // one flag raised once by the caller, guarding several calls
-        for mode in ["plain", "stop-before", "stop-during", "stop-before-again", "nowhere-plain", "nowhere-stop-before"] {
+        let near_limits = !asym && !plate_case && !selfc && tries % 12 == 3;
+        let modes: Vec<&str> = if near_limits { vec!["plain", "plain", "plain", "plain", "plain", "plain", "plain", "stop-before", "stop-during"] }
+                               else { vec!["plain", "stop-before", "stop-during", "stop-before-again", "nowhere-plain", "nowhere-stop-before"] };
+        for mode in modes {
             // (the last two: a relocation to where the robot already is)
             let goal = if mode.starts_with("nowhere") { start } else { goal };
             let mode = mode.trim_start_matches("nowhere-");
